@@ -35,12 +35,16 @@ try:
     def closure(channel): channel.send(y)
     def nonbuiltin(channel): channel.send(G)
     def wrongarg(chan): pass
+    def nested_global(channel, x=1):
+        def helper(v):
+            return os.getcwd() + str(v)
+        return helper(x)
     def channel_second(data, channel): pass
     def channel_kwonly(*, channel): pass
     def channel_defaulted_later(data=None, channel=None): pass
     sent_before = gw.remote_status().numchannels if False else None
     for f, name in ((closure, "closure"), (nonbuiltin, "non-builtin global"), (wrongarg, "wrong first parameter"), (lambda channel: 1, "lambda"),
-                    (channel_second, "channel as second parameter"), (channel_kwonly, "keyword-only channel"), (channel_defaulted_later, "channel as later defaulted parameter")):
+                    (nested_global, "non-builtin global used only inside a nested def"), (channel_second, "channel as second parameter"), (channel_kwonly, "keyword-only channel"), (channel_defaulted_later, "channel as later defaulted parameter")):
         try: gw.remote_exec(f); bad.append(f"{name} accepted")
         except ValueError: pass
         except Exception as e: bad.append(f"{name}: {type(e).__name__}")
@@ -57,4 +61,4 @@ except Exception as e:
     bad.append(f"scenario crashed: {type(e).__name__}: {e!s:.80}")
 finally:
     group.terminate(timeout=3)
-print(json.dumps({"failed": bool(bad), "results": bad[:5], "n": 17}))
+print(json.dumps({"failed": bool(bad), "results": bad[:5], "n": 18}))
